@@ -96,6 +96,22 @@ def gen_strings(ctx, n):
         else:
             body = ip
         out.append(("valid", ws() + neg + body + ws()))
+    # integer numerals aimed at the widths of the integer types a shortcut could go through
+    # (int / long / unsigned), every length 1..22, with the sign and white space counted in
+    bounds = [2 ** 31, 2 ** 32, 2 ** 53, 2 ** 63, 2 ** 64] + [10 ** k for k in range(1, 23)]
+    for _ in range(n // 4):
+        if r.random() < 0.6:
+            v = r.choice(bounds) + r.choice([-2, -1, 0, 1, 2, 7, 1000])
+            if r.random() < 0.3:
+                lo = r.choice(bounds)
+                v = r.randrange(lo, 10 ** len(str(lo)))
+        else:
+            k = r.randrange(1, 23)
+            v = int(r.choice("123456789") + digits(k - 1))
+        body = str(max(v, 0))
+        if r.random() < 0.15:
+            body = "0" * r.randrange(1, 4) + body
+        out.append(("intwidth", r.choice(["", "", " ", "  ", "\t"]) + r.choice(["", "", "-"]) + body + r.choice(["", "", " "])))
     for _ in range(n // 8):   # length around the 200-byte stack buffer
         k = r.choice([196, 197, 198, 199, 200, 201, 202, 250])
         s = digits(r.randrange(1, 30)) + "." + digits(400)
